@@ -19,10 +19,11 @@ pub mod ax {
         ensures #[trigger] <usize as IntoSpec<usize>>::obeys_into_spec(),
     {}
 }
-broadcast use {ax::axiom_usize_into_usize, ax::axiom_usize_obeys_into, vstd::std_specs::hash::group_hash_axioms, ax2::axiom_str_key_contains, ax2::axiom_str_key_maps, ax2::axiom_string_ext /*@broadcast_extra*/};
+broadcast use {ax::axiom_usize_into_usize, ax::axiom_usize_obeys_into, vstd::std_specs::hash::group_hash_axioms, ax2::axiom_str_key_contains, ax2::axiom_str_key_maps, ax2::axiom_str_set_contains, ax2::axiom_str_set_differ, ax2::axiom_string_ext /*@broadcast_extra*/};
 
 // looking a String key up by a &str: std's Borrow<str> for String hashes and compares like the String (assumed)
 pub use ax2::has_key;
+pub use ax2::has_elem;
 pub mod ax2 {
     use vstd::prelude::*;
     use vstd::std_specs::hash::*;
@@ -34,6 +35,16 @@ pub mod ax2 {
     #[verifier::external_body]
     pub broadcast proof fn axiom_str_key_maps<V>(m: Map<String, V>, k: &str, v: V)
         ensures #[trigger] maps_borrowed_key_to_value::<String, V, str>(m, k, v) <==> (exists|s: String| #[trigger] m.contains_key(s) && s@ == k@ && m[s] == v),
+    {}
+    // the same for a HashSet<String> queried / shrunk with a &str
+    pub open spec fn has_elem(m: Set<String>, k: Seq<char>) -> bool { exists|s: String| #[trigger] m.contains(s) && s@ == k }
+    #[verifier::external_body]
+    pub broadcast proof fn axiom_str_set_contains(m: Set<String>, k: &str)
+        ensures #[trigger] set_contains_borrowed_key::<String, str>(m, k) <==> has_elem(m, k@),
+    {}
+    #[verifier::external_body]
+    pub broadcast proof fn axiom_str_set_differ(a: Set<String>, b: Set<String>, k: &str)
+        ensures #[trigger] sets_differ_by_borrowed_key::<String, str>(a, b, k) ==> (forall|s: String| #[trigger] b.contains(s) <==> a.contains(s) && s@ != k@),
     {}
     // two Strings with the same characters are the same String
     #[verifier::external_body]
@@ -190,6 +201,13 @@ pub mod verif_io {
     // R8: `s == "literal"` on a String compares the characters
     #[verifier::external_body]
     pub fn str_eq(a: &String, b: &str) -> (r: bool)
+        ensures r == (a@ == b@),
+    { a == b }
+    // R15: the text produced by String::replace is not modelled
+    #[verifier::external_body]
+    pub fn str_replace(x: &String, a: &String, b: &String) -> (r: String) { x.replace(a.as_str(), b.as_str()) }
+    #[verifier::external_body]
+    pub fn strref_eq(a: &str, b: &str) -> (r: bool)
         ensures r == (a@ == b@),
     { a == b }
     // R8: flushing stdout has no effect that is modelled
